@@ -12,7 +12,7 @@ import PyxModel.Sql.Lexer
     * cardinality is NUMBER with text `1`, ID with text `M` or `MC` (exact case), or CARDINALITY (`1C`);
       any other NUMBER / ID there raises ParsingException from the action;
     * a negative value is the concatenation `'-' + text`; the statement keeps the TEXT of each value;
-    * a phrase is the STRING token without its first and last character (no un-escaping of `''`).
+    * a phrase is the STRING token without its first and last character, doubled quotes un-escaped.
 -/
 namespace Pyx.Sql
 open Gen.SqlLex (Kw)
@@ -132,7 +132,7 @@ def endAt (toks : List Tok) : Option (EndP × List Tok) := do
   let (keys, r) ← seqP identAt r
   let r ← expectK .RPAREN r
   match r with
-  | ⟨.kw .PHRASE, _⟩ :: ⟨.STRING, s⟩ :: r' => some (⟨kind, card, keys, stripEnds s⟩, r')
+  | ⟨.kw .PHRASE, _⟩ :: ⟨.STRING, s⟩ :: r' => some (⟨kind, card, keys, unescapeQ (stripEnds s)⟩, r')
   | _ => some (⟨kind, card, keys, []⟩, r)
 
 def relidAt : List Tok → Option (Name × List Tok)
